@@ -621,8 +621,97 @@ def case_untracked(ctx, index, rng: random.Random):
     rec.case(["untracked", e, how_b, np.asarray(a.frequencies).tolist(), np.asarray(b.frequencies).tolist()], True, cls=f"untracked/{how_b}")
 
 
+def case_narrow_sum(ctx, index, rng: random.Random):
+    """Operands with compact integer contents (int16 / int32) whose sums - of contents, squared errors or missed weights - do not fit
+    the type: the sum is exact (the type widens) or the addition is refused as a whole; and a Histogram1D is not added to a one-axis
+    HistogramND as if their missed counters meant the same."""
+    import physt
+    from physt.histogram1d import Histogram1D
+    from physt.histogram_nd import Histogram2D
+
+    rec = ctx.rec
+    rec.mon("C05.partition.equiv")
+    if rng.random() < 0.2:
+        edges = np.array([0.0, 1.0, 2.0, 3.0])
+        a = physt.h1(np.array([0.5, 1.5, 2.5, 2.6, -1.0, 7.0]), edges)
+        b = physt.h(np.array([0.5, 0.6, 1.5, -4.0, -5.0, 9.0, 9.5, 10.0]).reshape(-1, 1), [edges])
+        for order, (x, y) in (("1d+nd", (a, b)), ("nd+1d", (b, a))):
+            try:
+                with warnings.catch_warnings():
+                    warnings.simplefilter("ignore")
+                    r = x + y
+            except (ValueError, TypeError):
+                continue
+            with attach.quiet():
+                want = float(a.missed) + float(b.missed)
+                if float(r.missed) != want or not np.array_equal(np.asarray(r.frequencies).ravel(), np.asarray(a.frequencies) + np.asarray(b.frequencies).ravel()):
+                    rec.fail(monitor="C05.partition.equiv", op=order, symptom="a Histogram1D and a one-axis HistogramND were added with their missed counters mixed up", diff=["missed"],
+                             detail={"missed": float(r.missed), "expected": want})
+        rec.case(["1d_plus_nd1"], True, cls="narrow_sum/1d_plus_nd1")
+        return
+    dt = rng.choice(["int16", "int32"])
+    top = int(np.iinfo(dt).max)
+    d = rng.choice([1, 1, 2])
+    which = rng.choice(["missed", "missed", "contents", "errors2"])
+    big = top // 2 + rng.randint(1, 100)
+    try:
+        if d == 1:
+            ed = np.array([0.0, 1.0, 2.0])
+            kw = {"underflow": big} if which == "missed" else {}
+            fa = np.array([big if which == "contents" else 5, 3], dtype=dt)
+            ea = np.array([big if which == "errors2" else 5, 3], dtype=dt)
+            a = Histogram1D(ed, fa, errors2=ea, **kw)
+            b = Histogram1D(ed, fa.copy(), errors2=ea.copy(), **kw)
+        else:
+            ed = [np.array([0.0, 1.0, 2.0]), np.array([0.0, 1.0])]
+            kw = {"missed": big} if which == "missed" else {}
+            fa = np.array([[big if which == "contents" else 5], [3]], dtype=dt)
+            ea = np.array([[big if which == "errors2" else 5], [3]], dtype=dt)
+            a = Histogram2D(ed, fa, errors2=ea, **kw)
+            b = Histogram2D(ed, fa.copy(), errors2=ea.copy(), **kw)
+    except Exception as ex:
+        rec.monitor_error("C05.case_narrow_sum.make", ex)
+        return
+    form = rng.choice(["a+b", "a+=b", "sum"])
+    with attach.quiet():
+        s0 = snap.snapshot(a)
+    raised = None
+    try:
+        with warnings.catch_warnings():
+            warnings.simplefilter("ignore")
+            if form == "a+b":
+                r = a + b
+            elif form == "a+=b":
+                r = a
+                r += b
+            else:
+                r = sum([a, b, b.copy()])
+    except Exception as ex:
+        raised = ex
+    k = 3 if form == "sum" else 2
+    with attach.quiet():
+        if raised is not None:
+            if form == "a+=b":
+                dd = snap.diff(s0, snap.snapshot(a), ignore=("dtype",))
+                if dd:
+                    rec.fail(prop="C18", monitor="C05.partition.equiv", op=form, symptom=f"a refused += ({type(raised).__name__}) left the target half added", diff=sorted(dd), detail={"dtype": dt, "which": which})
+                    rec.fail(monitor="C05.partition.equiv", op=form, symptom=f"a refused += ({type(raised).__name__}) left the target half added", diff=sorted(dd), detail={"dtype": dt, "which": which})
+        else:
+            f = np.asarray(r.frequencies).ravel()
+            e = np.asarray(r.errors2).ravel()
+            m = float(r.underflow) if d == 1 else float(r.missed)
+            want_f = k * int(fa.ravel()[0])
+            want_e = k * int(ea.ravel()[0])
+            want_m = k * big if which == "missed" else 0
+            if int(f[0]) != want_f or int(e[0]) != want_e or m != want_m:
+                rec.fail(monitor="C05.partition.equiv", op=form, symptom="sums of compact integer operands wrapped around instead of widening the content type (or being refused)", diff=["frequencies", "errors2", "missed"],
+                         detail={"dtype": dt, "after": str(r.dtype), "which": which, "got": [int(f[0]), int(e[0]), m], "expected": [want_f, want_e, want_m], "dim": d})
+    rec.case(["narrow_sum", dt, d, which, form], True, cls=f"narrow_sum/{dt}/{d}d/{which}/{form}/{'refused' if raised is not None else 'accepted'}")
+
+
 def run(ctx):
     attach_monitors()
+    ctx.run_cases(ctx.scale(80, 400), case_narrow_sum, salt="narrowsum")
     ctx.run_cases(ctx.scale(60, 400), case_untracked, salt="untracked")
     ctx.run_cases(ctx.scale(60, 400), case_from_arrays, salt="arrays")
     ctx.run_cases(ctx.scale(60, 400), case_adaptive_missed, salt="admissed")
